@@ -36,8 +36,8 @@ func failf(format string, args ...any) Verdict { return Verdict{Fail: fmt.Sprint
 
 // Prop describes one sub-check of a property.
 type Prop[C any] struct {
-	ID     string          // property id, e.g. "C20"
-	Name   string          // sub-check name, e.g. "queue"
+	ID     string           // property id, e.g. "C20"
+	Name   string           // sub-check name, e.g. "queue"
 	Gen    func(*rapid.T) C // nil for enumerated / fuzzed sub-checks
 	Run    func(C) Verdict
 	Render func(C) any // how a case looks in evidence samples (default: the case itself)
